@@ -1,5 +1,5 @@
 """Per-property check procedures."""
-import json, os, subprocess, sys, glob
+import json, os, re, subprocess, sys, glob
 from vlib import (Run, ToolError, log, tlc_check, tlc_gen, run_vh, read_records, build_harness,
                   SPEC, MC, WORK, ROOT, VH)
 
@@ -90,3 +90,135 @@ def c20(run):
     run.add_model(st)
     feed(run, "golden", nd)
     run.exhaustive = True
+
+
+# ------------------------------------------------------------------ Ledger.tla scenarios (C01-C04, C12)
+def sig_ledger(rec, res, v):
+    """Signature of a disagreement on a Ledger behaviour (see known_findings.json)."""
+    kind = v.get("kind")
+    if rec.get("expect", {}).get("deferred") and kind in (
+            "accepted_invalid", "rejected_valid", "assertion_wrong_computed", "assertion_wrong_posting", "wrong_entry",
+            "wrong_error_kind"):
+        return "assert_after_omitted_same_account"
+    return kind
+
+
+def ledger_scenarios(run, scenarios, workers=8):
+    for sc in scenarios:
+        nd, n, st = tlc_gen("MCLedger.tla", "Ledger_%s.cfg" % sc, "%s-%s" % (run.pid, sc), workers=workers, timeout=1700)
+        st["scenario"] = sc
+        run.add_model(st)
+        feed(run, "ledger", nd, sig_of=sig_ledger)
+
+
+LEDGER_ASSUME = [
+    "decimal values stay far inside rust_decimal's 96-bit range (TLC integers are 32-bit)",
+    "the specification permits both acceptance and rejection of an implied exchange (opposite-sign pair); a rejection by okane there is not reported",
+    "FakeFileSystem stands for the file system; diagnostics are rendered with Renderer::plain()",
+]
+
+
+@check("C01")
+def c01(run):
+    run.rule = ("all transactions of the scenario scripts of spec/mc/MCLedger.tla (Plain: <=3 postings x 2 accounts x "
+                "{X,Y,Z} x {-2..2, bare 0, omitted}; Round: declared precision none/0/1 with half-unit boundaries; CostLot: "
+                "cost/lot rate/total incl. zero, same-commodity and bare rates); non-trivial = behaviour has an omitted/assigned "
+                "posting, a cost/lot, a declared precision, a rejection or an implied exchange (classes computed by the harness)")
+    run.assumptions += LEDGER_ASSUME
+    sc = ["Plain", "Round", "CostLot"]
+    if run.tier == "thorough":
+        sc += ["Plain4", "OmitAssign"]
+    ledger_scenarios(run, sc)
+    ledger_traces(run)
+    run.exhaustive = True
+
+
+@check("C02")
+def c02(run):
+    run.rule = ("scripts Assert (two transactions, assertions on any posting incl. two on one account, after assigned/omitted "
+                "postings, multi-commodity account, `= 0`), Deferred (assertion on the account of an earlier omitted posting) and "
+                "Alias of spec/mc/MCLedger.tla; non-trivial as for C01")
+    run.assumptions += LEDGER_ASSUME
+    sc = ["Assert", "Deferred", "DeducePrec", "Alias"] if run.tier == "quick" else ["AssertT", "Deferred", "DeducePrec", "Alias", "OmitAssign"]
+    ledger_scenarios(run, sc)
+    ledger_traces(run)
+    run.exhaustive = True
+
+
+@check("C03")
+def c03(run):
+    run.rule = ("script OmitAssign: funding transaction giving account A nothing / one / two commodities, then a transaction with "
+                "an omitted or assigned posting (`= v C`, `= 0 C`, bare `= 0`) at every position among <=3 postings with costs; "
+                "assignment after an omitted posting on the same account excluded (ill-defined); non-trivial as for C01")
+    run.assumptions += LEDGER_ASSUME
+    sc = ["OmitAssign", "DeducePrec"] if run.tier == "quick" else ["OmitAssign", "DeducePrec", "AssertT", "Plain4"]
+    ledger_scenarios(run, sc)
+    ledger_traces(run)
+    run.exhaustive = True
+
+
+def ledger_traces(run, runs=None):
+    """Binding B: random ledgers -> hooked okane -> recorded events -> validated by LedgerTrace.tla."""
+    from vlib import run_tlc
+    runs = runs or (250 if run.tier == "quick" else 4000)
+    tr = os.path.join(WORK, "%s-trace.ndjson" % run.pid)
+    inp = os.path.join(WORK, "%s-trace-inputs.ndjson" % run.pid)
+    p = subprocess.run([VH, "ledger-trace", "--seed", str(run.seed), "--runs", str(runs), "--out", tr, "--inputs", inp],
+                       stdout=subprocess.PIPE, stderr=subprocess.PIPE, text=True)
+    if p.returncode != 0:
+        sys.stderr.write(p.stderr[-2000:])
+        raise ToolError("trace recording failed")
+    inputs = read_records(inp)
+    for r in inputs:
+        if r.get("panic"):
+            run.report("panic", {"input": r["input"], "_mode": "ledger-trace"}, {"panic": r["panic"]},
+                       "panic: okane panicked while processing a random ledger: %s" % r["panic"][:300])
+    events = [l for l in open(tr)]
+    offset = 0           # events already dealt with
+    validated_runs = 0
+    total_states = 0
+    rounds = 0
+    while offset < len(events) and rounds < 6:
+        rounds += 1
+        part = os.path.join(WORK, "%s-trace-part.ndjson" % run.pid)
+        with open(part, "w") as f:
+            f.writelines(events[offset:])
+        rc, out, secs = run_tlc("../LedgerTrace.tla", "LedgerTrace.cfg", workers=1, timeout=1200,
+                                env_extra={"TRACE": part},
+                                java_extra="-Xss1g -Dtlc2.tool.queue.IStateQueue=StateDeque")
+        from vlib import parse_stats
+        st = parse_stats(out) or {"distinct": 0, "generated": 0}
+        total_states += st["distinct"]
+        m = re.search(r'TRACE-REJECTED at event", (\d+)', out)
+        if "No error has been found" in out and not m:
+            validated_runs += sum(1 for r in inputs if r["first_event"] > offset)
+            offset = len(events)
+            break
+        if not m:
+            sys.stderr.write(out[-3000:])
+            raise ToolError("trace validation failed without a rejected event (an invariant of the specification was violated on a recorded trace, or TLC failed)")
+        bad = offset + int(m.group(1))          # 1-based index of the first unmatched event
+        culprit = [r for r in inputs if r["first_event"] <= bad <= r["last_event"]]
+        if not culprit:
+            raise ToolError("cannot attribute rejected event %d" % bad)
+        c = culprit[0]
+        validated_runs += sum(1 for r in inputs if offset < r["first_event"] < c["first_event"])
+        ev = json.loads(events[bad - 1])
+        run.report("trace_" + ev.get("ev", "?"),
+                   {"input": c["input"], "_mode": "ledger-trace", "run": c["run"], "seed": run.seed},
+                   {"first_unmatched_event": ev, "events_of_run": [json.loads(x) for x in events[c["first_event"] - 1:c["last_event"]]][:200]},
+                   "trace rejected: event %d of run %d (%s) is not a step of Ledger.tla from the state reached" % (bad - c["first_event"] + 1, c["run"], ev.get("ev")))
+        offset = c["last_event"]
+    run.add_model({"module": "LedgerTrace.tla", "cfg": "LedgerTrace.cfg", "states": total_states, "transitions": total_states,
+                   "seconds": 0, "traces": validated_runs, "events": len(events)})
+    run.traces += validated_runs
+    run.evaluations += len(inputs)
+    for r in inputs[:len(inputs)]:
+        run.nontrivial.add(("trace", r["run"]))
+    run.extra["trace_runs_recorded"] = len(inputs)
+    run.extra["trace_events"] = len(events)
+    if inputs:
+        run.sample({"trace_run_input": inputs[0]["input"][:3], "events": [json.loads(x) for x in events[:4]]})
+
+
+MODES.update({"C01": "ledger", "C02": "ledger", "C03": "ledger"})
